@@ -361,7 +361,14 @@ func checkC15(p *Prog, r *Report) {
 					if "yield-invalid" != b.Comment && !strings.HasPrefix(b.Comment, "rangefunc.") && !ssa.IsUnreachableMarker(i) {
 						fail("panic", i, "explicit panic")
 					}
-				case *ssa.Go, *ssa.Select, *ssa.Send, *ssa.Defer:
+				case *ssa.Defer:
+					/* A deferred function literal of the codec itself is
+					code of the codec like any other (its body is examined
+					with the rest); anything else deferred is not. */
+					if lit, _ := closureOf(x.Common().Value); nil == lit || lit.Parent() != f {
+						fail(fmt.Sprintf("%T", i), i, "%T in the codec", i)
+					}
+				case *ssa.Go, *ssa.Select, *ssa.Send:
 					fail(fmt.Sprintf("%T", i), i, "%T in the codec", i)
 				case *ssa.TypeAssert:
 					if !x.CommaOk {
